@@ -12,9 +12,9 @@ from common import REPO
 READY = True
 
 META = {
-    "technique": "Lean 4 proofs about executable models (integer kernels, parser call graph regenerated from source, parser nesting accounting, a verified operand-stack certificate checker run on every real instruction stream = translation validation), tied by differential runs through the public API and a verif_hooks observation of the VM's operand stack; plus a crash oracle (child processes, signals, panic hook) over builtins x boundary arguments, format strings from a grammar, grammar-aware template mutants and nesting-depth probes",
+    "technique": "Lean 4 proofs about executable models (integer kernels, parser call graph regenerated from source, parser nesting accounting, a verified operand-stack certificate checker run on every real instruction stream = translation validation), tied by differential runs through the public API and a verif_hooks observation of the VM's operand stack; plus a crash oracle (child processes, signals, panic hook) over builtins x boundary arguments, format strings from a grammar, grammar-aware template mutants, nesting-depth probes (incl. chains stacked through every grouping primary, derived from the nesting model), width probes around every integer constant of compiler/ and vm/, engine objects read after their scope ended, and the whole minijinja-contrib surface",
     "category": "proof",
-    "text": "PARTIAL. Proved: (i) kernels — the models of functions::range (incl. exactness of every item), Loop::cycle and the loop attributes, ops::mul string/tuple/list repetition, filters::indent/tojson indent, format width/precision and zero padding of grouped numbers, filters::batch/slice count arithmetic, lexer advance/syntax_error u16 columns + debug caret line, ops::slice never reach a Rust panic for any input in the machine ranges, every infallible allocation sized by a template-chosen number is bounded by a named constant regenerated from the sources, MergeSeq nesting stays within MAX_DEPTH; (ii) parser — on the call graph regenerated from parser.rs every chain of Parser method calls that avoids with_recursion_guard! has fewer than 16 edges (every cycle guarded, native parser depth < (MAX_RECURSION+1)*16 frames) except the elif self-recursion (recorded finding); the parser's expr_nesting accounting computes exactly the longest loop-built chain on any path, so whatever parses has AST depth <= 2*MAX_EXPR_NESTING + 3*MAX_RECURSION + 1 = 2451 (elif chains excluded); (iii) VM operand stack — checkStk_sound: if the verified checker accepts a certificate for an instruction stream then in EVERY reachable state of the abstract stack machine (all branches, iteration counts, loop(...) recursion depths, arbitrary pushed values) no instruction pops/peeks/indexes what is not there (Stack::pop/peek unwrap, get_call_args/drop_top/reverse_top lengths, dynamic argument counts incl. the filtered-loop idiom as a counted segment, args[0] of method calls, build_macro's list); the check runs the verified checker on every stream the real compiler produces for ~10^5 templates. Searched, not proved: that nothing else panics, overflows the native stack or aborts in the allocator.",
+    "text": "PARTIAL. Proved: (i) kernels — the models of functions::range (incl. exactness of every item), Loop::cycle and the loop attributes, ops::mul string/tuple/list repetition, filters::indent/tojson indent, format width/precision and zero padding of grouped numbers, filters::batch/slice count arithmetic, the filter/test local ids of codegen get_local_id vs the VM caches of get_or_lookup_local (MAX_LOCALS from both files), lexer advance/syntax_error u16 columns + debug caret line, ops::slice never reach a Rust panic for any input in the machine ranges, every infallible allocation sized by a template-chosen number is bounded by a named constant regenerated from the sources, MergeSeq nesting stays within MAX_DEPTH; (ii) parser — on the call graph regenerated from parser.rs every chain of Parser method calls that avoids with_recursion_guard! has fewer than 16 edges (every cycle guarded, native parser depth < (MAX_RECURSION+1)*16 frames) except the elif self-recursion (recorded finding); the parser's expr_nesting accounting computes exactly the longest loop-built chain on any path, so whatever parses has AST depth <= 2*MAX_EXPR_NESTING + 3*MAX_RECURSION + 1 = 2451 (elif chains excluded); (iii) VM operand stack — checkStk_sound: if the verified checker accepts a certificate for an instruction stream then in EVERY reachable state of the abstract stack machine (all branches, iteration counts, loop(...) recursion depths, arbitrary pushed values) no instruction pops/peeks/indexes what is not there (Stack::pop/peek unwrap, get_call_args/drop_top/reverse_top lengths, dynamic argument counts incl. the filtered-loop idiom as a counted segment, args[0] of method calls, build_macro's list); the check runs the verified checker on every stream the real compiler produces for ~10^5 templates. Searched, not proved: that nothing else panics, overflows the native stack or aborts in the allocator.",
     "design_ref": "DESIGN.md §3 C01, §4",
     "level_note": "What is PROVED (kernel-checked, axioms propext/Classical.choice/Quot.sound only): MJ.C01.*_no_panic / *_alloc_le / range_items_exact / mergeSeq_depth_bounded about the hand-transcribed kernels in MJ/Model/Kernels.lean (+ Slice.lean via C09), validated against the real code on their whole boundary boxes through templates/Expression::eval/formatting::format (value and panic/no-panic outcome compared with drive_c01); MJ.C01.parser_cycles_guarded by `decide +kernel` on the call graph that lib/tables/c01.py regenerates from parser.rs, with MJ.CallGraph.runBound_sound / chain_length_lt; MJ.C01.nesting_exact / nesting_error_exact / ast_depth_bound about MJ/Model/Nesting.lean (hand model of the guard counter and of the expr_nesting save/reset/bump/max protocol; the protocol's presence in every loop function is checked textually by the extractor, the accept/reject verdicts of the real parser are compared with the model on derivations around the limit, unparsed to source); MJ.C01.checkStk_sound (MJ/Model/Stk.lean, MJ/Proofs/Stk.lean): soundness of the operand-stack certificate checker for the abstract machine of one eval_impl activation incl. loop recursion (relative stacks, floors of recursive loops). NOT proved: the code generator — covered by translation validation (the verified checker accepts every real stream of the run: fixtures, builtin-call templates, compiling mutants, depth-probe templates), not by a theorem about codegen.rs; the effect table mapping Instruction -> abstract instruction is a hand transcription (harness stk_tok, exhaustive match) tied dynamically by the verif_hooks::opstack hook (every dispatched instruction of every render: observed height transition vs table). What is ONLY SEARCHED (bounded, sampled; a finding is a witness, absence of findings is not a proof): native stack use of the AST walkers, of Value Display/serialize/Drop on deeply nested run-time values and of VM re-entry (AST depth is bounded by theorem, frame sizes are not modelled), allocator behaviour, the frame/capture stacks (C05), every builtin filter/test/function/loop/namespace/macro call on a boundary value zoo, format-string grammar, template mutants, error formatting; only the harness' dev profile (opt-level 1, overflow checks + debug assertions) in the quick tier, release added in thorough. Assumed: the guard macro has the extracted shape (checked textually), size_of::<Value>() = 24 (checked at run time), 64-bit target, allocation failure below the named limits does not occur (2 GiB cap in the workers), a loop object is only called where the model allows recursion (any CallFunction with one argument / FastRecurse may enter any recursive loop of the stream). Hangs (timeouts) are reported in the histogram, not counted as crashes.",
 }
